@@ -32,9 +32,17 @@ PROPS["C04"] = dict(engine="E5", level="fault_enumeration",
    level_text="Fault enumeration: every position of the history x every watch-fault kind x slow-actor choice, each run against the real controller in virtual time with relists disabled; exact oracles (cache == accepted server content within the reconnect delay, subscriber mirror == cache, reconnect version within [previous version, last delivered version]).",
    design_ref="DESIGN.md 5.4", technique="runtime monitoring with fault injection: enumerated watch faults at every history position, continuity and resume-version oracles in virtual time, race detector on")
 
+PROPS["C14"] = dict(engine="E15", level="fault_enumeration",
+   rule="list half: every failure kind {List error, non-list object, list of non-objects, object without list accessor, (nil,nil)} x k-th list for k=1..4 x seeded variants (period, latency of the failing list, random subscriber tree of 5-8 nodes of all kinds, concurrent server mutations), plus deliberate Close and context cancel; watch half: E5's enumeration of watch-fault kind x position. distinct = distinct case descriptor; non-trivial = reached the fail-stop / not-fatal verdict.",
+   assumptions=["virtual time; a failing list is expected to stop the controller within (k+3) periods + latency + 10s"],
+   floors={"any": {"failstop-checks": 80, "never-ready-checks": 10, "not-fatal-checks": 80}},
+   level_text="Fault enumeration over failure kind x list index (x tree, period, latency variants) and watch-fault kind x position; oracles on Done/Error/Ready of the controller and every descendant.",
+   design_ref="DESIGN.md 5.14", technique="runtime monitoring with fault injection: enumerated list/watch failures, lifecycle oracles (Done/Error/Ready of the whole subtree) in virtual time")
+
 ENGINES = {
  "E1": dict(path="harness/engines/e01_cache_test.go", kind="direct drive of the cache actor vs reference model R-cache; exhaustive small universe + random walks"),
  "E4": dict(path="harness/engines/e04_converge_test.go", kind="real controller over fault-injecting fake API server; convergence oracles at virtual-time quiescence"),
  "E5": dict(path="harness/engines/e05_watch_test.go", kind="real controller, relists disabled, enumerated watch faults at every position"),
+ "E15": dict(path="harness/engines/e15_failstop_test.go", kind="enumerated list failures at the k-th list with a subscriber tree attached; watch failures via E5 cases"),
 }
 NA = {}
